@@ -3,7 +3,7 @@
 From Coq Require Import Sorting.Permutation.
 From CKC Require Import Base.Prelude Base.Reflect Base.SortN Base.Combs Spec.Layout Spec.Poker.
 From CKC Require Import Model.Card Model.Hands Model.Five Model.HandRank.
-From CKC Require Import Proofs.CardFacts Proofs.CombFacts Proofs.FiveFacts Proofs.ShapeFacts Proofs.BestFacts Proofs.Total Proofs.FreeFacts.
+From CKC Require Import Proofs.CardBase Proofs.CombFacts Proofs.FiveFacts Proofs.ShapeFacts Proofs.BestFacts Proofs.Total Proofs.FreeFacts.
 From CKC Require Import Gen.Consts.
 Open Scope N_scope.
 
